@@ -521,7 +521,7 @@ fn main() {
     }
 
     // 3. operation histories
-    let rounds = ctx.scale(3, 3000, 30000);
+    let rounds = ctx.scale(3, 20000, 60000);
     let steps = ctx.scale(25, 120, 300);
     for r in 0..rounds {
         for init in 0..6 {
